@@ -41,7 +41,7 @@ class TableauGenerator(generator.Generator):
         return self.func("COUNT", this)
 
     def strposition_sql(self, expression: exp.StrPosition) -> str:
-        has_occurrence = "occurrence" in expression.args
+        has_occurrence = expression.args.get("occurrence") is not None
         return _strposition_sql(
             self,
             expression,
